@@ -34,7 +34,9 @@ def valid(action: str, body: str) -> bool:
         return body in ("gate-end", "shielded", "forever", "stop-event")
     if action == "none":
         return body == "gate-end"
-    if action in ("sync", "async", "sync-aw", "obj", "partial", "method"):
+    if action in ("sync", "async"):
+        return body in ("stop-event", "gate-end")  # gate-end: the task may have ended by itself before the teardown; the callable is still called
+    if action in ("sync-aw", "obj", "partial", "method"):
         return body == "stop-event"
     # raising callables fall back to cancellation
     return body in ("stop-event", "shielded")
@@ -67,14 +69,16 @@ class C08(E1Check):
 
     def units(self, tier: str, seed: int) -> list:
         svcs = [f"S:{a}:{b}" for a in ACTIONS for b in BODIES if valid(a, b)]
-        items = ["R", "T", "TXE", "TXB", "SW"] + svcs
+        items = ["R", "T", "TXE", "TXB", "SW", "TS"] + svcs  # TS: a teardown callback that starts a service task while the owner is closing
         progs = []
         maxn = 3 if tier == "quick" else 4
         for owner in ("root", "nested"):
             for n in range(1, maxn + 1):
                 for seq in itertools.product(items, repeat=n):
                     ns = sum(1 for x in seq if x.startswith("S"))
-                    if ns == 0 or ns > 2 or (sum(1 for x in seq if x == "SW") > 1):
+                    if (ns == 0 and "TS" not in seq) or ns > 2 or (sum(1 for x in seq if x == "SW") > 1) or seq.count("TS") > 1:
+                        continue
+                    if "TS" in seq and (ns > 1 or n == maxn and tier == "quick" and ns == 1 and not seq[0] == "R"):
                         continue
                     nx = sum(1 for x in seq if x.startswith("TX"))
                     if nx > 1 or (nx and (n == maxn and ns == 2)):
@@ -223,6 +227,15 @@ class C08(E1Check):
 
                         ctx.add_teardown_callback(raiser)
                         log("reg", lbl, item)
+                    elif item == "TS":
+                        async def starter(l: str = lbl) -> None:
+                            log("td", l)
+                            service, ta = make_service(l + "s", "sync", "stop-event")
+                            await ctx.start_service_task(service, "svc" + l + "s", teardown_action=ta)
+                            log("reg-late", l)
+
+                        ctx.add_teardown_callback(starter)
+                        log("reg", lbl, "TS")
                     elif item == "SW":
                         # a service task that registers a teardown callback on its owner while it is still starting
                         async def sw(*, task_status: Any, l: str = lbl) -> None:
@@ -326,6 +339,28 @@ class C08(E1Check):
             if late2:
                 fail("still-running", f"service task events after the owning context's block had been left: {late2[:4]}")
         for i, item in enumerate(seq):
+            if item == "TS":
+                # a service task started from a teardown callback (the owner is closing): it is stopped like any other - its action is
+                # called once, it and its context finish before callbacks registered earlier run and before the block is left
+                ls = f"{i}s"
+                sp = next((j for j, ev in enumerate(tr) if ev[0] == "svc+" and ev[1] == ls), None)
+                if sp is None:
+                    fail("not-started", f"the service task started by teardown callback {i} never ran")
+                    continue
+                end = next((j for j, ev in enumerate(tr) if ev[0] == "svc-" and ev[1] == ls), None)
+                tdx = next((j for j, ev in enumerate(tr) if ev[0] == "svc-td" and ev[1] == ls), None)
+                acts = [j for j, ev in enumerate(tr) if ev[0] == "action" and ev[1] == ls]
+                if len(acts) != 1:
+                    fail("action", f"teardown action of the task started during the teardown (callback {i}) was invoked {len(acts)} times")
+                if end is None or tdx is None or (owner_left is not None and max(end, tdx) > owner_left):
+                    fail("still-running", f"the service task started during the teardown (callback {i}) had not finished when the owner's block was left")
+                    continue
+                for k in range(i):
+                    if seq[k] in ("R", "T", "TXE", "TXB"):
+                        t = next((j for j, ev in enumerate(tr) if ev[0] == "td" and ev[1] == str(k)), None)
+                        if t is not None and (t < end or t < tdx):
+                            fail("order", f"teardown callback {k} ran at {t} while the service task started by the later-registered callback {i} was still running (ended {end}, context {tdx})")
+                continue
             if item == "SW":
                 tw = next((j for j, ev in enumerate(tr) if ev[0] == "td" and ev[1] == f"{i}w"), None)
                 se = next((j for j, ev in enumerate(tr) if ev[0] == "svc-" and ev[1] == str(i)), None)
